@@ -53,7 +53,6 @@ DOCUMENTED = {
 ADJUSTED = {
     "stateless_class": set(),
     "lazy_ignores": set(),
-    "collection_pipeline": {"collection_pipeline", "collection-pipeline"},
 }
 NOT_SECTIONS = {"project_root", "_project_root"}  # orchestrator-provided entries of the metadata dict, not config sections
 
